@@ -40,6 +40,27 @@ CHECKS = {
                      "The real encoder/decoder are driven over those transitions (coverage measured; 100% in thorough), all 65 salt characters and arbitrary salt strings, arbitrary well-formed strings and every malformed class; "
                      "each call is judged by TLC against the specification's own decoder and validity predicate.",
                 tech="TLA+ step machine Juniper.tla model-checked by TLC (all transitions); TLC trace validation of the real codec's calls"),
+    "C06": dict(cat="model_checking", ref="5/C06",
+                text="AddrText.tla is an independent scanner/parser (maximal runs, IPv4/IPv6 validity incl. dotted tails, alignment of output with input); TLC enumerates the lines (AddrGen: all strings <= N over a boundary alphabet, "
+                     "dotted and colon-hex candidates x contexts), checks scanner sanity on each, the real code rewrites them (stage-wise and through anonymize_io) and TLC judges every <input, output> pair: text outside tokens copied, "
+                     "every token replaced by a valid plain spelling, replacement pairs consistent with PrefixMap.",
+                tech="TLA+ scanner spec AddrText + TLC-generated cases (AddrGen) + TLC trace validation (TextTrace) of the real rewriting"),
+    "C07": dict(cat="model_checking", ref="5/C07",
+                text="SecretForms.tla is the table of recognised line forms; TLC enumerates every form x alternatives x format class x wrapping x indentation as abstract lines (content-free by construction). Each is concretized twice with different "
+                     "secret values; TLC requires the slot to hold something else than the secret and the two outputs / INFO+ logs to be identical (non-interference).",
+                tech="TLA+ form table SecretForms (TLC-enumerated abstract lines) + paired concretizations judged by TLC (SecretTrace: Replaced, Sameoutput, Samelog)"),
+    "C09": dict(cat="model_checking", ref="5/C09",
+                text="Same abstract lines plus TLC-enumerated occurrence histories (PwdLookup.tla, which TLC shows to break ClassKept exactly for the history behind finding D14); replacements are decoded by independent decoders and TLC "
+                     "checks class (and md5 salt length) and that enclosing text and the rest of the line are kept, under every netconan salt class.",
+                tech="TLA+ SecretForms + PwdLookup/Secrets; TLC trace validation with ClassKept / ContextKept on independently decoded replacements"),
+    "C10": dict(cat="model_checking", ref="5/C10",
+                text="Words.tla: R = set of admissible rewritings of a token (any choice among overlapping words), M = fixed try-order (hash seed); TLC checks M in R and that no word survives, for all word sets/orders/tokens in a small universe. "
+                     "TLC-enumerated word lists x reserved sets are run in >= 3 interpreters with different hash seeds and through FileAnonymizer; TLC judges each token: member of Rewrites under the learned pseudonym function, reserved tokens kept, no survivor.",
+                tech="TLA+ Words (R/M) model-checked; TLC-generated configurations; TLC trace validation (WordsTrace) across hash seeds"),
+    "C11": dict(cat="model_checking", ref="5/C11",
+                text="AsNum.tla: block table on digit sequences, maximal-digit-run scanner, M = hash mod size + begin with regex semantics; TLC checks M => R for a scaled table with every number and residue and for all short lines/lists. "
+                     "The real class is driven at every block boundary with chosen hash residues, bulk random numbers, a line grammar and cross-instance/process families; every call is judged by TLC (AsNumTrace).",
+                tech="TLA+ AsNum (R/M) model-checked by TLC; TLC trace validation of the real AsNumberAnonymizer / anonymize_io calls"),
 }
 
 NA_REASON = "check not built yet (work in progress; see DESIGN.md section 5)"
